@@ -116,6 +116,7 @@ def _check_syntactic(m, run, funcs, summ, contracts):
         flip2d_rule(m, run)
     sweep_rule(m, run)
     _sd.sw2(m, run)
+    _sd.ws5(m, run)       # sweeping and construction go through the rational accessors of all three classes: the three views agree, warm and cold (WS5, shared with C09)
     df1(m, run)
     run.floor('LY1.index-matches-layout', 40, 'index reads checked by the LAYOUT interpreter')
     run.floor('LY3.list-matches-declared-sizes', 24, 'set_ctrlpts / constructed nets checked by the LAYOUT interpreter')
